@@ -293,10 +293,10 @@ def run(ctx, prog):
         ctx.inst('C01.R3', sp.short, 'opens the parent of its argument', 'Path::parent(arg:path)' in a, 'File::open(%s)' % a)
 
     # ------------------------------------------------------------------ R4 publish before prune
-    ctx.rule('C01.R4', 'publish before prune in create_snapshot: Snapshot::save ≺ assign(manifest.latest_snapshot) ≺ '
-                       'Manifest::save#1 ≺ compact_old_wal_segments ≺ Manifest::save#2 ≺ Ok (the stale-snapshot exit '
-                       'excepted); remove_file sites in hnsw_backend.rs/persistence.rs are exactly the stale-snapshot '
-                       'removal and the segment removal, the latter reachable only from that call site')
+    ctx.rule('C01.R4', 'publish before prune, unlist before unlink, in create_snapshot: Snapshot::save ≺ assign(manifest.latest_snapshot) ≺ '
+                       'Manifest::save#1 (pointer, full segment list) ≺ compact_old_wal_segments (decides, prunes the in-memory list) ≺ Manifest::save#2 (pruned list) '
+                       '≺ unlink of the covered segments ≺ Ok (the stale-snapshot exit excepted); remove_file sites in hnsw_backend.rs/persistence.rs are exactly '
+                       'the stale-snapshot removal and that unlink loop, which runs over the list the compaction returned')
     cs = util.pick(ctx, 'C01.R4', 'HnswBackend::create_snapshot', 'Snapshot::save', 'Manifest::save')
     saves = eff.blocks(cs, 'manifest_save')
     comp = eff.blocks(cs, 'compact_wal')
@@ -327,9 +327,28 @@ def run(ctx, prog):
     for c in prog.callers_of('std::fs::remove_file', 'std::fs::remove_dir_all', 'std::fs::remove_dir'):
         if re.search(r'engine/src/(hnsw_backend|persistence)\.rs', c.loc):
             rm_sites.append(c.body.short.split('::{')[0])
-    want_rm = ['hnsw_backend::HnswBackend::compact_old_wal_segments', 'hnsw_backend::HnswBackend::create_snapshot']
-    ctx.inst('C01.R4', 'remove_file inventory', 'unlink sites = {create_snapshot (stale), compact_old_wal_segments}',
-             sorted(set(rm_sites)) == want_rm and len(rm_sites) == 2, 'sites: %s' % sorted(rm_sites))
+    ctx.inst('C01.R4', 'remove_file inventory', 'unlink sites = {create_snapshot: stale snapshot file, covered segments}',
+             sorted(set(rm_sites)) == ['hnsw_backend::HnswBackend::create_snapshot'] and len(rm_sites) == 2, 'sites: %s' % sorted(rm_sites))
+    # unlist before unlink: a log segment is deleted only after the MANIFEST that no longer lists it is on disk. Deleting first leaves, after a process kill in
+    # between, a MANIFEST that lists a missing segment — and strict recovery refuses that at every later start-up
+    if len(saves) >= 2 and len(comp) == 1:
+        ocs2 = flow.Origin(cs, stop_at_vars=True)
+        seg_rm = []
+        for c in cs.calls_to('std::fs::remove_file'):
+            h_ = [h for h in cs.calls if h.callee and h.is_('re:Iterator>::next$') and cs.dominates(h.bb, c.bb) and h.bb in cs.reach([c.bb])]
+            if h_:
+                seg_rm.append((c, util.loop_source(cs, h_[-1])))
+        comp_call = cs.call_at(comp[0])
+        lst = flow.render(ocs2.of_local(cs.var_local('covered_segments')[0])) if cs.var_local('covered_segments') else '?'
+        s2_succ = []
+        for b_ in s2:
+            s2_succ += flow.success_edges(cs, cs.call_at(b_)) or []
+        ok_rm = bool(seg_rm) and bool(s2_succ) and all(c.bb not in cs.reach([0], avoid_edges=s2_succ) for c, _ in seg_rm)
+        ctx.inst('C01.R4', cs.short, 'segments are unlinked only after the MANIFEST without them was saved', ok_rm,
+                 '%d unlink loop(s) over %s; behind the success edge of Manifest::save#2: %s' % (len(seg_rm), [s_[:60] for _, s_ in seg_rm], ok_rm))
+        full_src = [flow.render(flow.Origin(cs).of_local(cs.var_local(re.sub(r'^.*var:(\w+).*$', r'\1', s_))[0])) if re.search(r'var:\w+', s_) and cs.var_local(re.sub(r'^.*var:(\w+).*$', r'\1', s_)) else s_ for _, s_ in seg_rm]
+        ctx.inst('C01.R4', cs.short, 'what is unlinked is the list the compaction returned', bool(full_src) and all('HnswBackend::compact_old_wal_segments(' in x for x in full_src),
+                 'unlink loop source: %s' % [x[:110] for x in full_src])
     cc = sorted(set(c.body.short for c in prog.callers_of('HnswBackend::compact_old_wal_segments')))
     ctx.inst('C01.R4', 'compact_old_wal_segments', 'called only from create_snapshot', cc == [cs.short], 'callers: %s' % cc)
 
